@@ -5,11 +5,12 @@ Model (`Model/Diff.lean`): `emit` turns a diff into the statements `fiddler_from
 for one node (`del cfg.k`, `fdl.remove_tag`, `fdl.update_callable`, `cfg.k = v`,
 `fdl.add_tag`) in the order `_cst_for_changes` writes them; `execAll` runs them with the
 validation the real statements perform.
+The main theorem covers every change list whose changes come in ANY order.
 The correspondence run parses the *emitted Python source* back into these statements and runs
 the model on them, so variable naming modes, `new_shared_values` handling and the presence or
 absence of `old` are exercised on the real generator; nested targets are outside the model.
 -/
-import FiddleModel.Lemmas.DiffMain
+import FiddleModel.Lemmas.DiffOrder
 import FiddleModel.Generated.Tables
 
 namespace Fiddle
@@ -29,13 +30,26 @@ theorem C13_statement_equals_change (sg : Sigs) (c r : Flat) (ch : Change) (hok 
     (h : apply1 sg c ch = .ok r) : exec1 sg c (emit1 ch) = .ok r :=
   (exec1_emit1 sg c r ch hok h).1
 
-/-- For the diffs `build_diff` produces (in the model's change order) the three coarse phases
-    and the five phases of `_apply_changes` are the same sequence of operations, so the
-    fiddler produces exactly what `apply_diff` produces. That the two groupings agree for a
-    diff whose changes come in ANOTHER order is not proved (it needs the independence of
-    changes with distinct targets); the correspondence run covers it on the real generator:
-    `_partial`. -/
-theorem C13_fiddler_equals_apply_diff_partial (sg : Sigs) (old new c r : Flat) (hok : ArgsOk sg c)
+/-- **For every change list in which no argument is both modified and set** (true of every
+    diff: a target has one value operation), in whatever order its changes come: whenever
+    `apply_diff` (five phases, in the order read from the source) succeeds, the generated
+    fiddler succeeds and produces exactly the same configuration. The proof moves commuting
+    operations past each other (`Lemmas/DiffOrder.lean`): tag edits commute with argument
+    edits, the callable switch with modifications, a new argument with the modification of a
+    different one. -/
+theorem C13_fiddler_equals_apply_diff (sg : Sigs) (chs : List Change)
+    (hMS : ∀ k v k' v', Change.modifyValue k v ∈ chs → Change.setValue k' v' ∈ chs → k ≠ k')
+    (c r : Flat) (hok : ArgsOk sg c)
+    (h : applyPhases sg Tables.applyOrder chs c = .ok r) :
+    execAll sg c (emit chs) = .ok r := by
+  have hord : Tables.applyOrder = ["DeleteValue", "RemoveTag", "ModifyValue", "SetValue", "AddTag"] := by
+    decide
+  rw [hord] at h
+  exact fiddler_eq_regrouped_apply sg chs c r hok (regroup_of_phases sg chs hMS c r h)
+
+/-- Special case kept from the first version: for `build_diff`'s own change order the two
+    orders are literally the same sequence. -/
+theorem C13_fiddler_equals_apply_diff_model_order (sg : Sigs) (old new c r : Flat) (hok : ArgsOk sg c)
     (h : applyPhases sg Tables.applyOrder (flatDiff old new) c = .ok r) :
     execAll sg c (emit (flatDiff old new)) = .ok r := by
   have hord : Tables.applyOrder = ["DeleteValue", "RemoveTag", "ModifyValue", "SetValue", "AddTag"] := by
@@ -54,7 +68,7 @@ theorem C13_fiddler_of_build_diff (sg : Sigs) (old new : Flat) (ho : old.Valid s
     decide
   obtain ⟨r, hr, h1, h2, h3⟩ := flat_roundtrip sg old new ho hn
   rw [← hord] at hr
-  exact ⟨r, C13_fiddler_equals_apply_diff_partial sg old new old r ho.argsOk hr, h1, h2, h3⟩
+  exact ⟨r, C13_fiddler_equals_apply_diff_model_order sg old new old r ho.argsOk hr, h1, h2, h3⟩
 
 private def sgEx : Sigs := fun f => if f = "f" then ["a", "c"] else if f = "g" then ["b", "c"] else []
 private def oldEx : Flat := { fn := "f", args := [(.name "a", .v 1), (.name "c", .v 3)], tags := [(.name "a", [7])] }
